@@ -91,11 +91,16 @@ package types
 //@ pure
 //@ ensures result <==> (exists j :: 0 <= j && j < len(ms) && ms[j].IsMalicious)
 //@ loop 0: invariant forall j :: 0 <= j && j < #i ==> !ms[j].IsMalicious
+// call history of the owner-module callbacks: how often "created" / "failed" was reported for which group
+//@ ghost Count_OnGroupCreationCompleted map[uint64]int
+//@ ghost Count_OnGroupCreationFailed map[uint64]int
 //@ func (cb TSSCallback) OnGroupCreationCompleted
 //@ trusted
+//@ counts groupID
 //@ modifies Other, Bank
 //@ func (cb TSSCallback) OnGroupCreationFailed
 //@ trusted
+//@ counts groupID
 //@ modifies Other, Bank
 //@ func (cb TSSCallback) OnGroupCreationExpired
 //@ trusted
@@ -134,3 +139,16 @@ package types
 //@ func (p Params) Validate
 //@ ensures err == nil ==> 1 <= p.SigningPeriod && p.SigningPeriod <= MaxInt64 && p.MaxSigningAttempt <= MaxInt64
 //@ loop 0: invariant forall j :: 0 <= j && j < #i ==> (fields[j].isPositiveOnly ==> fields[j].val >= 1)
+
+// ---- content / originator interfaces and the content router, as used by Keeper.RequestSigning: stateless -------------
+//@ func (c Content) ValidateBasic
+//@ trusted
+//@ func (o Originator) Validate
+//@ trusted
+//@ func (o Originator) Encode
+//@ trusted
+//@ func (r *ContentRouter) HasRoute
+//@ trusted
+//@ func (r *ContentRouter) GetRoute
+//@ trusted
+//@ may_panic
